@@ -133,10 +133,14 @@ def c14_string(doc, k, nlen):
     for x in exprs_of(soup.expr, []):
         if isinstance(x, TexCmd) and len(x.args) == 1 and isinstance(x.args[0], (BraceGroup, BracketGroup)) and SX.raw(x.name) != 'item':
             cands.append(x)
-        elif isinstance(x, TexNamedEnv) and len(x.args) == 0 and len(x._contents) == 1 and isinstance(x._contents[0], TexText) \
-                and not SX.decide(SX.And(*[SX.ch_ws(ch) for ch in SX.raw(str(x._contents[0]))])) \
+        elif isinstance(x, TexNamedEnv) and len(x.args) == 0 and len(x._contents) >= 1 \
+                and all([isinstance(c, TexText) for c in x._contents]) \
                 and (SX.is_symbolic(SX.raw(x.name)) or plain_name(SX.raw(x.name))):
-            cands.append(x)
+            # text-only: exactly one of its text children is not whitespace-only (the contents view shows one text)
+            nonblank = [c for c in x._contents
+                        if not (len(SX.raw(str(c))) > 0 and SX.decide(SX.And(*[SX.ch_ws(ch) for ch in SX.raw(str(c))])))]
+            if len(nonblank) == 1:
+                cands.append(x)
     if k >= len(cands):
         return ('skip',)
     e = cands[k]
@@ -154,8 +158,8 @@ def c14_string(doc, k, nlen):
     if isinstance(e, TexCmd):
         a0, a1 = sp[id(e.args[0])]
     else:
-        a0, a1 = sp[id(e._contents[0])]
-        a0, a1 = a0 - 1, a1 + 1
+        a0 = sp[id(e._contents[0])][0] - 1
+        a1 = sp[id(e._contents[-1])][1] + 1
     try:
         node.string = new
     except Exception as ex:
@@ -200,6 +204,11 @@ def c14_args(doc, k, mode):
         order = list(range(1, n)) + [0]
         g = node.args.pop(0)
         node.args.insert(len(node.args), g)
+    elif mode == 'reassign-same':
+        order = list(range(n))[::-1]
+        a = node.args
+        a.reverse()
+        node.args = a            # the node's own list object, mutated and assigned back
     elif mode == 'assign-new':
         order = None
         node.args = TexArgs(['{n}', '[m]'])
